@@ -12,10 +12,13 @@ E == Trace[l]
 OpOf(e) == [i \in 1..Len(e.op) |-> [sup |-> {e.op[i].sup[k] : k \in 1..Len(e.op[i].sup)}, c |-> e.op[i].c]]
 \* the line's shots and operator are loaded into the specification state, then the definitions are evaluated
 Loaded == shots = E.shots /\ op = OpOf(E)
-MeansMatch == \A i \in Idx : E.means[i] = DefMean(i)
-CorrMatch == \A i \in Idx : \A j \in Idx : E.corr[i][j] = DefCorr(i, j)
-CovMatch == \A i \in Idx : \A j \in Idx : E.cov[i][j] = DefCov(i, j, N)
-TalliesMatch == \A i \in Idx : E.tallies[i] = ParityTally(op[i].sup)
+\* the verdict is total: a recorded result of the wrong SHAPE (a row per distinct support instead of a row per term, a
+\* frame of another size) is a rejection with a named clause, never an evaluation error
+IsSq(m) == Len(m) = Len(op) /\ \A i \in 1..Len(m) : Len(m[i]) = Len(op)
+MeansMatch == Len(E.means) = Len(op) /\ \A i \in Idx : E.means[i] = DefMean(i)
+CorrMatch == IsSq(E.corr) /\ \A i \in Idx : \A j \in Idx : E.corr[i][j] = DefCorr(i, j)
+CovMatch == IsSq(E.cov) /\ \A i \in Idx : \A j \in Idx : E.cov[i][j] = DefCov(i, j, N)
+TalliesMatch == Len(E.tallies) = Len(op) /\ \A i \in Idx : E.tallies[i] = ParityTally(op[i].sup)
 CountsMatch == /\ \A k \in 1..Len(E.counts) : Count(E.counts[k].t) = E.counts[k].n
                /\ ISum([k \in 1..Len(E.counts) |-> E.counts[k].n]) = N
 Names == <<"MeansMatch", "CorrMatch", "CovMatch", "TalliesMatch", "CountsMatch">>
